@@ -121,6 +121,18 @@ func init() {
 			m.fixedSchedule = tT(a[0]).Val != 0
 			return nil
 		},
+		vpkg + "LastRegexpSource": func(m *Machine, _ *frame, _ *ssa.Function, a []Value) Value {
+			if p, ok := m.natives["regexp.lastPattern"].(Str); ok {
+				return p
+			}
+			return Str{}
+		},
+		vpkg + "LastRegexpSubject": func(m *Machine, _ *frame, _ *ssa.Function, a []Value) Value {
+			if p, ok := m.natives["regexp.lastSubject"].(Str); ok {
+				return p
+			}
+			return Str{}
+		},
 		vpkg + "Symbolic": func(m *Machine, _ *frame, _ *ssa.Function, a []Value) Value { return m.C.True },
 		vpkg + "F64Lt": func(m *Machine, _ *frame, _ *ssa.Function, a []Value) Value { return m.C.FLt(tT(a[0]), tT(a[1])) },
 		vpkg + "F64Eq": func(m *Machine, _ *frame, _ *ssa.Function, a []Value) Value { return m.C.FEq(tT(a[0]), tT(a[1])) },
@@ -247,13 +259,29 @@ func init() {
 			if ns := normStr(m.strBytes(subj)); ns.B == nil && re.re != nil {
 				return m.C.Bool(re.re.MatchString(ns.S))
 			}
+			// symbolic pattern or subject: the regexp engine is outside the encoding; the result is
+			// an arbitrary Boolean (harnesses inspect the pattern/subject through zzverif.LastRegexp*)
 			m.natives["regexp.lastSubject"] = subj
-			m.abort("unsupported: regexp match with symbolic pattern or subject")
-			return nil
+			return m.ND("regexp.match", 0)
 		},
 		"(*regexp.Regexp).String": func(m *Machine, _ *frame, fn *ssa.Function, a []Value) Value { return m.regexpOf(a[0]).src },
 		"regexp.QuoteMeta": func(m *Machine, _ *frame, fn *ssa.Function, a []Value) Value {
-			return Str{S: regexp.QuoteMeta(m.concStr(a[0], "regexp.QuoteMeta"))}
+			in := a[0].(Str)
+			if ns := normStr(m.strBytes(in)); ns.B == nil {
+				return Str{S: regexp.QuoteMeta(ns.S)}
+			}
+			var out []*term.T
+			for _, b := range m.strBytes(in) {
+				special := m.C.False
+				for _, c := range []byte(`\.+*?()|[]{}^$`) {
+					special = m.C.Or(special, m.C.Eq(b, m.C.Const(8, uint64(c))))
+				}
+				if m.Decide(special) {
+					out = append(out, m.C.Const(8, '\\'))
+				}
+				out = append(out, b)
+			}
+			return normStr(out)
 		},
 		"runtime.GOMAXPROCS": func(m *Machine, _ *frame, _ *ssa.Function, a []Value) Value { return m.mkInt(1) },
 		"runtime.NumCPU":     func(m *Machine, _ *frame, _ *ssa.Function, a []Value) Value { return m.mkInt(1) },
